@@ -6,7 +6,10 @@ from harness.gd import empty, node, well_formed
 from harness.gen_graph import features
 
 TYPES = ('linked', 'perm', 'unord', 'unordnr')
-PLACEMENTS = ('permanent', 'nested_in_member', 'first_under_third', 'later_under_third', 'exclusive')
+PLACEMENTS = ('permanent', 'nested_in_member', 'first_under_third', 'later_under_third', 'exclusive',
+              'permanent_and_independent', 'permanent_and_conditional')
+# the last two: all members permanent, plus an unrelated choice declared after them (permanent; resp. a choice nested
+# under an option of another unrelated choice) - constraints must not disturb, or be disturbed by, unrelated choices
 
 
 def make(ctype, n_members, n_opts, placement):
@@ -27,7 +30,7 @@ def make(ctype, n_members, n_opts, placement):
         third = {'origin': 1, 'opts': [z1, z2]}
     members = []
     for m in range(n_members):
-        if placement == 'permanent':
+        if placement in ('permanent', 'permanent_and_independent', 'permanent_and_conditional'):
             origin = new()
             g['der'].append([1, origin])
         elif placement == 'nested_in_member':
@@ -60,7 +63,15 @@ def make(ctype, n_members, n_opts, placement):
         opts = [new() for _ in range(n_opts)]
         members.append({'origin': origin, 'opts': opts})
     # declaration order = member order; the third choice is declared LAST so that member ids are 1..n_members
-    g['ch'] = members + ([third] if third else [])
+    extra = []
+    if placement == 'permanent_and_independent':
+        o = new()
+        g['der'].append([1, o])
+        extra = [{'origin': o, 'opts': [new(), new()]}]
+    elif placement == 'permanent_and_conditional':
+        z1, z2 = new(), new()
+        extra = [{'origin': 1, 'opts': [z1, z2]}, {'origin': z1, 'opts': [new(), new()]}]
+    g['ch'] = members + ([third] if third else []) + extra
     g['n'] = n[0]
     g['cons'] = [{'type': ctype, 'm': list(range(1, n_members+1)), 'dv': []}]
     g['der'].sort()
